@@ -24,6 +24,7 @@ type c20Scenario struct {
 	Concurrent bool      `json:"concurrent"`
 	Reqs       []httpReq `json:"requests"`
 	Scrapes    int       `json:"scrapes"`
+	Load       int       `json:"load,omitempty"` // > 0: this many POSTs are held inside their handlers (stalled body) while the metrics address is scraped
 	Choices    []int     `json:"schedule,omitempty"`
 }
 
@@ -165,7 +166,52 @@ func c20Run(c *ev.Ctx, sc *c20Scenario, states *sync.Map) func() (func(*vsched.S
 			vhttp.WaitAccepting(proverAddr)
 			vhttp.WaitAccepting(metricsAddr)
 			tally := map[string]int{}
-			if !sc.Concurrent {
+			if sc.Load > 0 {
+				// availability under load: Load requests are inside the /prove handler (reading a body whose
+				// rest has not arrived); the metrics address must answer and report exactly them in flight
+				st := &vhttp.Stall{}
+				done := vsched.NewChan[int](sc.Load + 1)
+				results := make([]*vhttp.Response, sc.Load)
+				for i := 0; i < sc.Load; i++ {
+					i := i
+					vsched.GoNamed(fmt.Sprintf("client%d", i), func() {
+						results[i] = vhttp.DoStalled(fmt.Sprintf("c%d", i), proverAddr, "POST", "/prove", []byte("not json"), st)
+						done.Send(i)
+					})
+				}
+				st.AwaitParked(sc.Load)
+				vsched.SetExplore(true)
+				vsched.GoNamed("scraper", func() {
+					s, _ := doScrape("s-load")
+					if s != nil {
+						if s.InFlight != float64(sc.Load) {
+							bad("scrape under load: %d requests are inside the /prove handler, in-flight gauge says %v", sc.Load, s.InFlight)
+						}
+						if s.Sum != 0 {
+							bad("scrape under load: %v responses counted although no handler has returned", s.Sum)
+						}
+						atomic.AddInt64(&c20InFlightSeen, 1)
+					}
+					done.Send(100)
+				})
+				if v := done.Recv(); v != 100 {
+					bad("a held request completed before its body arrived")
+				}
+				vsched.SetExplore(false)
+				st.Release()
+				for i := 0; i < sc.Load; i++ {
+					done.Recv()
+				}
+				for i, r := range results {
+					if r == nil || r.Outcome != "complete" {
+						bad("request %d got no response", i)
+						continue
+					}
+					tally[tallyKey("POST", r.Status)]++
+				}
+				s, _ := doScrape("final")
+				compare(s, tally, "after the held requests completed")
+			} else if !sc.Concurrent {
 				for i, rq := range sc.Reqs {
 					r := vhttp.Do(fmt.Sprintf("c%d", i), proverAddr, rq.Method, "/prove", []byte(rq.Body))
 					if r.Outcome != "complete" {
@@ -281,7 +327,11 @@ func c20Body(c *ev.Ctx) {
 			long = append(long, letters[(i*5+i/6)%len(letters)])
 		}
 		seqs = append(seqs, long)
-		sem := make(chan struct{}, 8)
+		par := 8
+		if vsched.HasSharedState() {
+			par = 1 // the tree under check keeps package-level state: executions must not overlap in this process
+		}
+		sem := make(chan struct{}, par)
 		var wg sync.WaitGroup
 		for _, sq := range seqs {
 			if c.Expired() {
@@ -329,6 +379,32 @@ func c20Body(c *ev.Ctx) {
 	}
 	per := map[string]any{}
 	allDone := true
+	// availability under load: 1, 4, 5 (9, 17 thorough) requests held in flight, then a scrape
+	loads := []int{1, 4, 5}
+	if !quick {
+		loads = append(loads, 9, 17)
+	}
+	for _, ld := range loads {
+		for _, mode := range modes {
+			sc := c20Scenario{Mode: mode, Load: ld}
+			name := fmt.Sprintf("%s: %d requests held in flight + scrape", mode, ld)
+			e := &vsched.Explorer{Bound: 0, Fine: false, MaxSteps: 2000000, Workers: 1, Deadline: c.Deadline, NewRun: c20Run(c, &sc, nil), AfterRun: vhttp.Uninstall}
+			e.OnFailure = func(choices []int, s *vsched.Sched, f *vsched.Failure) {
+				if f.Kind == "replay-divergence" {
+					c.HarnessError("replay divergence: %s", f.Msg)
+				}
+				rs := sc
+				rs.Choices = choices
+				c.Violation(fmt.Sprintf("load|%s|%d|%s", mode, ld, f.Kind), f.Kind+": "+f.Msg, rs)
+				e.Stop()
+			}
+			e.Explore()
+			execs += e.Execs
+			trans += e.Transitions
+			per[name] = map[string]any{"executions": e.Execs, "complete": !e.Capped}
+			c.Logf("%s: executions=%d", name, e.Execs)
+		}
+	}
 	for _, jb := range jobs {
 		L := c13Letters(jb.mode)
 		L["notjson"] = httpReq{"POST", "not json", "notjson"}
@@ -347,7 +423,7 @@ func c20Body(c *ev.Ctx) {
 		e := &vsched.Explorer{Bound: jb.bound, Fine: true, UseKeys: false, CountOnly: true, MaxSteps: 2000000, Workers: 1 /* one execution at a time: the code under test may (wrongly) hold package-level state, which parallel executions in one process would share */, Deadline: c.Deadline, NewRun: c20Run(c, &sc, nil), AfterRun: vhttp.Uninstall,
 			MaxChoiceDev: 1,
 			Filter: func(p *vsched.Point, alt int) bool {
-				return strings.HasPrefix(p.Label, "choose:") || (strings.HasPrefix(p.Running, "conn-") && strings.HasPrefix(p.Enabled[alt], "conn-"))
+				return strings.HasPrefix(p.Label, "choose:") || (sutThread(p.Running) && sutThread(p.Enabled[alt]))
 			}}
 		e.OnFailure = func(choices []int, s *vsched.Sched, f *vsched.Failure) {
 			if f.Kind == "replay-divergence" {
